@@ -1010,6 +1010,7 @@ def make_engine(modname, repo=None):
     eng.axioms = getattr(m, 'AXIOMS', [])
     eng.sigs = {}
     eng.lemmas = getattr(m, 'LEMMAS', [])
+    eng.abstract_methods = getattr(m, 'ABSTRACT_METHODS', {})
     nodes, shas, errors = {}, {}, []
     if eng.lemmas:
         import hashlib
